@@ -18,6 +18,9 @@ pub enum VerifPoll {
     Completed(std::result::Result<Vec<u8>, LibUsbError>),
     /// The transfer didn't complete within the timeout.
     Pending,
+    /// The event loop itself failed (`libusb_handle_events` returned an error): nothing is known
+    /// about the transfer, it stays pending.
+    Error(LibUsbError),
 }
 
 /// Scripted USB endpoint behaviour.
@@ -49,6 +52,16 @@ pub trait VerifUsb: Send + Sync {
 
     /// Submit an asynchronous bulk-in transfer of `len` bytes, returns its id.
     fn submit_bulk(&self, endpoint: u8, len: usize) -> std::result::Result<u64, LibUsbError>;
+    /// Same as [`Self::submit_bulk`], additionally told where the transfer's buffer lives, so that a
+    /// harness can watch the lifetime of the memory the USB stack owns until the transfer is reaped.
+    fn submit_bulk_at(
+        &self,
+        endpoint: u8,
+        _buffer: *const u8,
+        len: usize,
+    ) -> std::result::Result<u64, LibUsbError> {
+        self.submit_bulk(endpoint, len)
+    }
     /// Wait up to `timeout` for the completion of transfer `id`.
     fn poll_bulk(&self, id: u64, timeout: Duration) -> VerifPoll;
     /// Cancel transfer `id`. A cancelled transfer completes with `LibUsbError::Timeout`.
@@ -153,7 +166,7 @@ impl AsyncTransfer {
     }
 
     pub(super) fn submit(&mut self) -> Result<()> {
-        let id = self.usb.submit_bulk(self.endpoint, self.len)?;
+        let id = self.usb.submit_bulk_at(self.endpoint, self.ptr, self.len)?;
         self.state.id.set(Some(id));
         Ok(())
     }
@@ -192,6 +205,7 @@ pub(super) fn poll_completed(
     };
     match completed.usb.poll_bulk(id, timeout) {
         VerifPoll::Pending => Ok(false),
+        VerifPoll::Error(e) => Err(e.into()),
         VerifPoll::Completed(res) => {
             *completed.result.borrow_mut() = Some(res);
             Ok(true)
